@@ -8,11 +8,12 @@ import "os"
 // tag it does nothing.
 func verifYield(point string, kv ...interface{}) {}
 
-// Overrides consulted by CanClone / CloneRange; always nil without the build tag.
-var (
-	VerifCanClone   func(dstFile, srcFile string) bool
-	VerifCloneRange func(dst, src *os.File, srcOffset, srcLength, dstOffset uint64) error
-)
+// Overrides consulted by CanClone / CloneRange: never handled without the build tag.
+func verifCanClone(dstFile, srcFile string) (bool, bool) { return false, false }
+
+func verifCloneRange(dst, src *os.File, srcOffset, srcLength, dstOffset uint64) (error, bool) {
+	return nil, false
+}
 
 func verifPlan(attempt int, plan Plan) {}
 
